@@ -348,13 +348,18 @@ bool TimeZoneInfo::ExtendTransitions() {
   // We also generate the transitions of one more year (without counting
   // it in last_year_) because a rule time such as "0/-1" places a year's
   // first transition in the closing hours of the previous civil year.
-  transitions_.reserve(transitions_.size() + 2 + 402 * 2);
+  // Likewise we start with the year before the current one, because a
+  // rule time such as "J365/167" places a year's last transition in the
+  // opening days of the following civil year.
+  transitions_.reserve(transitions_.size() + 4 + 402 * 2);
   extended_ = true;
 
   const Transition& last(transitions_.back());
   const std::int_fast64_t last_time = last.unix_time;
   const TransitionType& last_tt(transition_types_[last.type_index]);
   last_year_ = LocalTime(last_time, last_tt).cs.year();
+  const year_t limit = last_year_ + 402;
+  last_year_ -= 1;
   bool leap_year = IsLeap(last_year_);
   const civil_second jan1(last_year_);
   std::int_fast64_t jan1_time = jan1 - civil_second();
@@ -362,7 +367,7 @@ bool TimeZoneInfo::ExtendTransitions() {
 
   Transition dst = {0, dst_ti, civil_second(), civil_second()};
   Transition std = {0, std_ti, civil_second(), civil_second()};
-  for (const year_t limit = last_year_ + 402;; ++last_year_) {
+  for (;; ++last_year_) {
     auto dst_trans_off = TransOffset(leap_year, jan1_weekday, posix.dst_start);
     auto std_trans_off = TransOffset(leap_year, jan1_weekday, posix.dst_end);
     dst.unix_time = jan1_time + dst_trans_off - posix.std_offset;
